@@ -39,7 +39,8 @@ META = {
         "text a whole file, which only callers whose text is read from a file may do; no second engine is built and render() is "
         "not re-entered; md/md_env "
         "are bound once from the constructor/setup_render parameters, and nothing markdown-it registered in md_env is taken out "
-        "again (no clear/popitem, pop/del only of the keys MyST stores itself - a snapshot restored after a nested render loses "
+        "again, and every path to _render_tokens passes a tokenisation made in the same call (tokens cached by text are not the "
+        "tokens of that text at a later place: the parse reads and writes md_env) (no clear/popitem, pop/del only of the keys MyST stores itself - a snapshot restored after a nested render loses "
         "the reference definitions and footnotes registered in between); _render_tokens is reached only from render and "
         "nested_render_text (or helpers only they call); the mocks' nested entry points hand the text they were given to "
         "nested_render_text in the parsing mode (block/inline) of the docutils contract. "
@@ -869,10 +870,38 @@ def r1_one_engine(corpus: Corpus, rep: Report, tier: str):
         if isinstance(call.func, ast.Attribute) and call.func.attr == "_render_tokens":
             k = f"{nrt.fq}|renders the tokens it parsed"
             arg = call.args[0] if call.args else None
-            if arg is not None and _derives(arg, nrt, lambda n: isinstance(n, ast.Attribute) and n.attr in ("parse", "parseInline")):
-                rep.ok("C06.R1", k, nrt.module.site(call))
-            else:
+            # every path to the render passes a tokenisation made in this call: the parse reads the shared environment
+            # (reference definitions known so far) and writes to it, so tokens kept from an earlier call are not the
+            # tokens of this text at this point of the document
+            cfg_r = get_cfg(nrt)
+
+            def tokenises(st_) -> bool:
+                if not isinstance(st_, ast.AST):
+                    return False
+                for x in ast.walk(st_) if not isinstance(st_, (ast.If, ast.While, ast.For, ast.With, ast.Try)) else ast.walk(getattr(st_, "test", None) or getattr(st_, "iter", None) or ast.Pass()):
+                    if isinstance(x, ast.Call) and isinstance(x.func, ast.Attribute):
+                        if x.func.attr in ("parse", "parseInline") and unparse(_deref(x.func.value, nrt) or x.func.value).endswith("md"):
+                            return True
+                        h_ = _package_callee(x, nrt)
+                        if h_ is not None and not h_.is_lambda and h_.fq != nrt.fq and any(isinstance(y, ast.Call) and isinstance(y.func, ast.Attribute) and y.func.attr in ("parse", "parseInline") and unparse(y.func.value).endswith("md") for y in h_.local_nodes()):
+                            return True
+                return False
+
+            render_st = cfg_r.stmt_of(call)
+            skipped = cfg_r.paths_avoiding("ENTRY", render_st, tokenises)
+            if arg is None or not _derives(arg, nrt, lambda n: isinstance(n, ast.Attribute) and n.attr in ("parse", "parseInline")) and not _derives(arg, nrt, lambda n: isinstance(n, ast.Call) and _package_callee(n, nrt) is not None):
                 rep.violation("C06.R1", k, nrt.module.site(call), "the tokens handed to _render_tokens do not come from the parse of the text argument")
+            elif skipped:
+                rep.violation(
+                    "C06.R1",
+                    k,
+                    nrt.module.site(call),
+                    "some path reaches _render_tokens without tokenising the text in this call (tokens kept from an earlier call / a cache keyed on the text): markdown-it's parse reads and "
+                    "writes the shared environment, so a nested text that uses `[label]` is tokenised differently before and after the definition of that label was met - "
+                    "re-used tokens are not the tokens this text has at this place (and their line maps were already shifted in place)",
+                )
+            else:
+                rep.ok("C06.R1", k, nrt.module.site(call), "every path to the render passes a parse of this call")
 
     # (e) nested entries call nested_render_text with the text they were given, in the contract's mode
     nrt_callers = callers.get(nrt.fq, [])
@@ -2865,6 +2894,30 @@ def mutants(corpus: Corpus):
             out.append(("c06-include-rolls-back-env-from-snapshot", "md_env restores not found in the include's finally"))
     c = find_node(nrt, lambda n: isinstance(n, ast.With))
     add("c06-nested-render-forgets-duplicate-refs", "C06.R1", base, c, _seg(base, c) + "\n" + _indent(base, c) + 'del self.md_env["duplicate_refs"]' if c is not None else "", "drops entries of the shared environment")
+
+    # class: nested text rendered from tokens that were not produced in this call (cache keyed on the text)
+    first = nrt.node.body[1] if isinstance(nrt.node.body[0], ast.Expr) and isinstance(nrt.node.body[0].value, ast.Constant) else nrt.node.body[0]
+    last_parse = None
+    for st_ in nrt.node.body:
+        if any(is_call(x, "parse") or is_call(x, "parseInline") for x in ast.walk(st_)):
+            last_parse = st_
+    if last_parse is not None and first is not None and last_parse.lineno >= first.lineno:
+        ind = _indent(base, first)
+        lines_ = base.src.splitlines(keepends=True)
+        block = "".join(lines_[first.lineno - 1 : last_parse.end_lineno])
+        indented = "".join((("    " + ln) if ln.strip() else ln) for ln in block.splitlines(keepends=True))
+        new_block = (
+            ind + "_key = (text, inline)\n"
+            + ind + "_cache = self.__dict__.setdefault('_nested_token_cache', {})\n"
+            + ind + "if _key not in _cache:\n"
+            + indented
+            + ind + "    _cache[_key] = tokens\n"
+            + ind + "tokens = list(_cache[_key])\n"
+        )
+        new_src = "".join(lines_[: first.lineno - 1]) + new_block + "".join(lines_[last_parse.end_lineno :])
+        out.append(Mutant("c06-nested-tokens-cached-by-text", "C06.R1", base.rel, new_src, expect="renders the tokens it parsed"))
+    else:
+        out.append(("c06-nested-tokens-cached-by-text", "tokenising statements of nested_render_text not found"))
 
     # ---- R2
     c = find_node(cf, lambda n: is_call(n, "strip") and unparse(n.func.value).endswith(".info"))
